@@ -27,7 +27,7 @@ func refMSM7(t int) bool { return t >= 1077 && t <= 1137 && t%10 == 7 }
 
 // C20 enumerates all 4096 message types and the two negative sentinels.
 func C20(r *ev.Run) {
-	r.Rule = "complete enumeration of message types -2..4095; each type is one case; non-trivial = every case (each exercises 10 classification observations); distinct = distinct type values"
+	r.Rule = "complete enumeration of message types -2..4095; each type is one case; each type is also sent, as CRC-valid frames of 9 payload lengths (2..300, including the sizes of 1005/1006 and padded ones) followed by a second frame, through HandleMessages, whose classification must agree with GetMessage; non-trivial = every case (each exercises 10 classification observations); distinct = distinct type values"
 	r.Assumptions = []string{"constellation names are compared by case-insensitive stem (gps, glonass, galileo, sbas, qzss, beidou, navic), not by exact spelling"}
 	start := time.Date(2023, 5, 10, 12, 0, 0, 0, time.UTC)
 	names := map[string]int{} // constellation name -> decade
@@ -189,6 +189,24 @@ func C20(r *ev.Run) {
 				fail(t, "1006-decoder-acceptance", fmt.Sprintf("1006 decoder accepted=%v for type %d", e == nil, t), t == 1006, e == nil)
 			}
 			r.Count(0, 0, 4, 0)
+		}
+		// the byte-stream route (what every application uses) must classify a frame
+		// as GetMessage does, whatever its length: short, exactly the size of a
+		// 1005/1006, padded, long
+		for _, L := range []int{2, 3, 19, 20, 21, 22, 23, 40, 300} {
+			fr := ref.TypedFrame(t, L, nil)
+			ms, fault := implHandleMessages(handler.New(start, slog.LevelInfo), append(append([]byte{}, fr...), ref.TypedFrame(1230, 8, nil)...))
+			r.Count(0, 0, 1, 0)
+			direct, _ := handler.New(start, slog.LevelInfo).GetMessage(fr)
+			if fault != "" {
+				fail(t, "stream-route "+fault, fmt.Sprintf("type %d payload length %d through HandleMessages", t, L), nil, fault)
+			} else if len(ms) != 2 || ms[0].MessageType != t || direct == nil || direct.MessageType != t || ms[1].MessageType != 1230 {
+				var got []int
+				for _, m := range ms {
+					got = append(got, m.MessageType)
+				}
+				fail(t, "stream-route-classification-differs", fmt.Sprintf("type %d payload length %d: HandleMessages delivers types %v, GetMessage says %d", t, L, got, t), []int{t, 1230}, got)
+			}
 		}
 		if t == 1077 || t == 1005 || t == 4095 {
 			r.Sample(map[string]interface{}{"type": t, "frame": ev.FullHex(frame), "msm4": e4, "msm7": e7})
